@@ -170,8 +170,13 @@ class SymStr:
                 else:
                     out.append(core.ite(core.And(c >= 97, c <= 122), c - 32, c))
             else:
-                raise EngineLimit('case mapping of a symbolic non-ASCII character')
-        return SymStr(out)
+                # the case mapping of an arbitrary non-ASCII character is not modelled: the result is some
+                # unknown character (over-approximation; counterexamples are re-checked on the real code)
+                SymStr._fresh += 1
+                out.append(_path().int('casemap%d' % SymStr._fresh, lo=0, hi=MAXCP))
+        return _out(out)
+
+    _fresh = 0
 
     def lower(self):
         return self._map_case(True)
@@ -243,6 +248,28 @@ class SymStr:
         parts.append(_out(cur))
         return parts
 
+    def splitlines(self, keepends=False):
+        if keepends:
+            raise EngineLimit('splitlines(keepends=True) on symbolic text')
+        lines, cur = [], []
+        cps = self.cps
+        i, n = 0, len(cps)
+        while i < n:
+            c = cps[i]
+            brk = core.Or(*[c == lb for lb in LINE_BREAKS]) if _sym(c) else (c in LINE_BREAKS)
+            if brk:
+                lines.append(_out(cur))
+                cur = []
+                # \r\n counts as one break
+                if not _sym(c) and c == 0x0d and i + 1 < n and not _sym(cps[i + 1]) and cps[i + 1] == 0x0a:
+                    i += 1
+            else:
+                cur.append(c)
+            i += 1
+        if cur:
+            lines.append(_out(cur))
+        return lines
+
     def isspace(self):
         return len(self.cps) > 0 and all(self._is_space(c) for c in self.cps)
 
@@ -257,7 +284,15 @@ class SymStr:
     def encode(self, encoding='utf-8', errors='strict'):
         return encode(self.cps, encoding, errors)
 
+    def __deepcopy__(self, memo):
+        return self
+
+    def __copy__(self):
+        return self
+
     def __getattr__(self, name):
+        if name.startswith('__') and name.endswith('__'):
+            raise AttributeError(name)
         raise EngineLimit('str.%s is not modelled for symbolic text' % name)
 
 
